@@ -116,7 +116,7 @@ def trace_obligations(pid, method, policy, nested):
                                  '%d transactions for one operation' % len(begins)))
             imm = all(tr[i][1]['immediate'] for i in begins)
             out.append(R('C05.%s%s.begin_immediate' % (method, tag), imm, method, p, 'deferred BEGIN'))
-        if pid in ('C05', 'C06', 'C07'):
+        if pid in ('C05', 'C06', 'C07', 'C08'):
             # a value file that existed before this operation is removed only outside any open transaction
             # (i.e. after the commit that dropped the reference); new files of this operation may go earlier
             for i, e in removed_terms(tr):
@@ -202,6 +202,33 @@ def transact_block(pid):
         cache.fields['_txn_id'] = mark
         st.ghost.update(self=cache, mark=mark)
         return it.call_function(fv, [cache, False], {}, cm_body=lambda y: st.effect('BODY'))
+    # frame of the owner mark: nothing but _transact (and the initialisation in __init__) ever writes it --
+    # the mark belongs to the thread inside a block, whatever other threads do with the same object
+    import ast as _ast
+    writers = []
+    for mname, mod in ctx.program.modules.items():
+        for node in _ast.walk(mod.tree):
+            if isinstance(node, (_ast.FunctionDef, _ast.AsyncFunctionDef)):
+                for sub in _ast.walk(node):
+                    tg = []
+                    if isinstance(sub, _ast.Assign):
+                        tg = sub.targets
+                    elif isinstance(sub, (_ast.AugAssign, _ast.AnnAssign)):
+                        tg = [sub.target]
+                    elif isinstance(sub, _ast.Delete):
+                        tg = sub.targets
+                    elif isinstance(sub, _ast.Call) and isinstance(sub.func, _ast.Name) and sub.func.id in ('setattr', 'delattr') \
+                            and len(sub.args) >= 2 and isinstance(sub.args[1], _ast.Constant) and sub.args[1].value == '_txn_id':
+                        writers.append('%s.%s (line %d)' % (mname, node.name, sub.lineno))
+                    for t in tg:
+                        for x in _ast.walk(t):
+                            if isinstance(x, _ast.Attribute) and x.attr == '_txn_id':
+                                writers.append('%s.%s (line %d)' % (mname, node.name, sub.lineno))
+    foreign_writers = sorted(set(w for w in writers if not w.split(' ')[0].endswith(('core.__init__', 'core._transact'))))
+    out.append(Result('%s.transact.owner_mark_written_only_by_the_block' % pid, 'frame', 'proved' if not foreign_writers else 'refuted', ms=0,
+                      backend='engine', function='Cache (all methods)',
+                      detail=None if not foreign_writers else 'the owner mark _txn_id is also written by %s: a thread that is not inside the '
+                      'block can wipe the mark of the thread that is' % ', '.join(foreign_writers)))
     nf = 0
     for n, p in enumerate(explore(foreign, max_paths=200)):
         busy = any(e[0] == 'BEGIN_BUSY' for e in p.state.trace)
